@@ -3,7 +3,7 @@ CONSTANTS
   MB = 4
   MA = 3
   MD = 2
-  Thin = 8
+  Thin = 5
   CovThin = 8
   Slice <- MCSlice
   Emit = TRUE
